@@ -55,8 +55,9 @@ PATTERNS = [
     "unit-parameter", "locals-and-conditionals", "untranslatable", "same-name-coinciding-specialisation",
     "repeated-arg-same-specialisation", "hard-literals", "repeated-arg-name-clash", "ignored-param-repeated-last",
     "ignored-param-repeated-first", "local-import-shadows-module-helper", "generator-internal-names", "edge-tuple-untranslatable",
+    "edge-signature-variants",
 ]
-EDGE_PATTERNS = {"edge-tuple-untranslatable"}  # generation may refuse these; whatever it emits must compute the function's value
+EDGE_PATTERNS = {"edge-tuple-untranslatable", "edge-signature-variants"}  # generation may refuse these; whatever it emits must compute the function's value
 STATES = c07.STATES
 TIMES = c07.TIMES
 
@@ -152,6 +153,10 @@ def build_model(case):
     elif p == "edge-tuple-untranslatable":
         m.add_reaction("rs", F.tuple_untr_fn, args=["x1", "k1"], stoichiometry={"x1": -1})
         m.add_derived("s1", F.tuple_untr_fn, args=["k2", "x1"])
+    elif p == "edge-signature-variants":
+        m.add_reaction("rs", F.posonly_mixed_fn, args=["x1", "k1"], stoichiometry={"x1": -1})
+        m.add_derived("s1", F.posonly_all_fn, args=["k2", "x1"])
+        m.add_derived("s2", F.default_arg_fn, args=["x1", "k2"])
     elif p == "local-import-shadows-module-helper":
         m.add_reaction("rs", F.local_import_fn, args=["x1", "k1"], stoichiometry={"x1": -1})
         m.add_reaction("rs2", F.module_helper_fn, args=["x1", "k2"], stoichiometry={"x1": -1})
